@@ -20,11 +20,13 @@ n = len(r)
 txt = open(f"{V}/tools/design_asbuilt.md").read()
 txt += f"""### 10.8 Seeded changes: which check catches which change
 
-{n} breaking changes were produced in three rounds by fresh sub-agents that saw only the text of one
+{n} breaking changes were produced in four rounds by fresh sub-agents that saw only the text of one
 property and a scratch worktree under /tmp (round 1: two per property, ids `Cnn-1`, `Cnn-2`;
 round 2: one more per property, `Cnn-3`, asked to look away from the most obvious place; round 3:
 `Cnn-4`, given one-line descriptions of the earlier changes to that property and asked for something
-different in kind, in a helper nobody had touched). Each
+different in kind, in a helper nobody had touched; round 4: `Cnn-5`, given the descriptions of all
+four earlier changes and asked for a change that needs a rare input - a particular byte pattern, a
+second module, a process setting, a file already at the output path - to show). Each
 was confirmed by me (applies to HEAD, suite still 147 passed, its own `demo.py` exits 0 without
 and 1 with the change — `seeded/<id>/confirm.txt`) and is kept as
 `seeded/<id>/{{patch.diff, demo.py, notes.md, meta.json}}`. `tools/seed_matrix.py` applies each to
@@ -79,7 +81,43 @@ What the seeded changes taught, and what was added to the checks because of them
   UTC offsets; C02-4 (module-level key cache by label) -> two ceremonies in one process whose
   tokens hold different keys under the same labels; C03-4 (output opened before serialising) -> a
   ceremony whose SKR cannot be serialised, output path watched; C08-4 see above.
-* Everything else in the three rounds was caught by the check as it stood.
+* Round 4 was by far the hardest: on the first sweep the property's own check reported 6 of the 20
+  with a failing input (C01, C07, C10, C14, C18, C19 - three of them only because inputs had been
+  added after reading the descriptions: TTL 0 in the configuration, EC keys whose X coordinate
+  starts with 0x04), 2 only through the correspondence (C04, C06) and 12 not at all. All twenty
+  are now reported with a failing input. What was added, per change:
+  C02-5 (SKR writer indexes keys by key tag) -> every signing scenario of C02 now also puts the
+  signed bundles through the tool's own writer and reads the document with ElementTree, plus
+  bundles with colliding tags; C03-5 (RSA verification left-pads a short signature) -> a token
+  fault `strip-zero` (RSA result returned as a minimal-length integer) and a search over cycle
+  starts until the reference signer says one requested signature begins with a zero octet, and in
+  C07 the same for proofs of possession (leading zero dropped / one zero prepended); C04-5
+  (`get_p11_key` swallows a module's exception and searches on) -> first module ambiguous or
+  unreadable, second module clean; C15-5 (wrong De Morgan in `load_pkcs11_key`: a private key's
+  public part is replaced by the first public object carrying the label) -> signing through
+  78 two-slot/two-module layouts built from {{empty, noise, pubA, pubB, privB, privB+pubB}} in C15
+  and sign-only cases in C04; C05-5 (`astimezone` instead of `replace` in `parse_datetime`) ->
+  the lattice around the horizon/expiry bounds with timestamps written without an offset (the
+  form of the archived KSRs) and the process in three other time zones (`TZ=VRF+05` etc.), and
+  the bundle times read are compared with those written; C06-5 (key tag with end-around carry
+  loop) -> a ZSK whose tag sum overflows after the fold; C08-5 (duplicate key identifiers no
+  longer refused when validating a bundle) -> previous SKR files publishing our key and a foreign
+  key under one identifier, signed by the foreign key, through `load_skr` + chain check with a
+  token holding only ours; C09-5 (safety check moved after the write) -> whole ceremonies through
+  the real `ksrsigner` in C09 itself, output path observed ("released" is the file); C11-5
+  (`os.open` without `O_TRUNC`) -> `output_skr_xml` over earlier files of several lengths, file
+  bytes compared with the document (and a long earlier file in C03's clean ceremonies); C12-5
+  (declared algorithms de-duplicated by (algorithm, size)) -> the loaded request is compared field
+  by field with the generator's data, and policies declare entries differing in one parameter
+  only; C13-5 (nested-quantifier regexp in the duration reader) -> every text field of a signed
+  KSR/SKR replaced in turn by backtracking-prone and over-long contents; C16-5 (`search` instead
+  of `match` in the duration reader) -> a table of 33 unparsable durations in `ksk_policy` -
+  which also turned up a defect of the unchanged code (newline; fix dcc9fff below); C17-5
+  (configuration hashed from a text-mode read) -> configuration files with CRLF / mixed / BOM /
+  non-ASCII comment / CR-only forms, logged digest against the file's bytes; C20-5 (`lru_cache` on
+  `load_skr`) -> the previous SKR file replaced between uploads, with expectations that come from
+  how the documents were built instead of from a second call of the same loader.
+* Everything else in the four rounds was caught by the check as it stood.
 
 ### 10.9 Running it
 
